@@ -252,10 +252,11 @@ class Result:
                         break
             if hit:
                 self.known_hits.append((hit, "line %d clause %s" % (ln, clause)))
-            elif len(self.violations) < max_report:
+            elif len([v for v in self.violations if v["clause"] == clause]) < 2 and len(set(v["replay"] for v in self.violations)) < max(max_report, 10):
                 self.violation(clause, "trace line %d%s" % (ln, (" " + extra) if extra else ""), ctx)
             else:
-                self.violations.append(dict(clause=clause, detail="trace line %d" % ln, replay=self.violations[0]["replay"]))
+                same = [v for v in self.violations if v["clause"] == clause] or self.violations
+                self.violations.append(dict(clause=clause, detail="trace line %d" % ln, replay=same[0]["replay"]))
 
     def finish(self):
         os.makedirs(EVIDENCE, exist_ok=True)
